@@ -147,9 +147,11 @@ func (c *SimChain) MineSilently(extra ...*wire.MsgTx) {
 }
 
 // MineBlock extends the chain by one block containing the planned
-// transactions for that height plus extra, and notifies the chain view client
-// (graph builder) and all block-epoch clients (gossiper).
-func (c *SimChain) MineBlock(extra ...*wire.MsgTx) int32 {
+// transactions for that height plus extra. It returns the new height and two
+// functions that deliver the news: one to the chain view client (graph
+// builder), one to the block-epoch clients (gossiper). In a real node the two
+// notifications race; the simulator chooses the order.
+func (c *SimChain) MineBlock(extra ...*wire.MsgTx) (int32, func(), func()) {
 	c.mu.Lock()
 	h := int32(len(c.blocks))
 	txs := append(c.planned[h], extra...)
@@ -159,21 +161,25 @@ func (c *SimChain) MineBlock(extra ...*wire.MsgTx) int32 {
 	epochs := append([]chan *chainntnfs.BlockEpoch(nil), c.epochs...)
 	c.mu.Unlock()
 
-	select {
-	case c.newBlocks <- fb:
-	default:
-		panic("gossipsim: chain view block channel full")
+	toView := func() {
+		select {
+		case c.newBlocks <- fb:
+		default:
+			panic("gossipsim: chain view block channel full")
+		}
 	}
 	hash := b.hash
 	hdr := b.header
-	for _, ch := range epochs {
-		select {
-		case ch <- &chainntnfs.BlockEpoch{Hash: &hash, Height: h, BlockHeader: &hdr}:
-		default:
-			panic("gossipsim: epoch channel full")
+	toEpochs := func() {
+		for _, ch := range epochs {
+			select {
+			case ch <- &chainntnfs.BlockEpoch{Hash: &hash, Height: h, BlockHeader: &hdr}:
+			default:
+				panic("gossipsim: epoch channel full")
+			}
 		}
 	}
-	return h
+	return h, toView, toEpochs
 }
 
 // filtered returns the transactions of b that spend a watched outpoint.
